@@ -15,6 +15,7 @@ mod c33;
 mod glvchk;
 mod gtchk;
 mod lpcomp;
+mod lpworld;
 mod oraclechk;
 mod orders;
 mod perp;
